@@ -342,6 +342,8 @@ type session struct {
 	polFault string
 	respStop chan struct{}
 	respDone chan struct{}
+	downDone bool
+	downOK   bool
 	reached  int
 	heightOf map[types.Hash]uint64
 }
@@ -1680,9 +1682,14 @@ func sessionProp(c *pbt.C) {
 	for _, ep := range s.eps {
 		s.checkOutgoing(ep, "the session", -1, false)
 	}
-	// --- state
-	hNow := s.node.Height()
-	fNow := s.node.Frontier().Hash
+	// --- state, read after the manager and everything it started have come to rest
+	if !s.shutdown() {
+		s.aborted = true
+		return
+	}
+	s.unreportedPanics()
+	fr := s.node.Frontier()
+	hNow, fNow := fr.Height, fr.Hash
 	switch {
 	case fNow == frontier0:
 		if !s.txValid {
@@ -1710,6 +1717,18 @@ func sessionProp(c *pbt.C) {
 	case hNow > s.k && s.allValid(hNow) && fNow == s.hashAt(hNow):
 		c.Class("node-imported-valid-momentums")
 		s.note("node advanced %d -> %d on momentums of A delivered by the peer", s.k, hNow)
+		// its store equals that of a follower that was handed exactly A[2..hNow] and nothing else
+		ref := s.sh.w.AddNode("R", false)
+		_, rerr := ref.Bridge.InsertChain(s.sh.a.Range(2, hNow))
+		rd := ref.Dump()
+		s.sh.w.Drop(ref)
+		if rerr != nil {
+			c.Failf("C15/setup", "reference follower cannot sync A[2..%d]: %v", hNow, rerr)
+		}
+		if d := s.node.Dump(); d != rd {
+			c.Failf("C15/state-changed", "after importing A[%d..%d] from the hostile peer the node's store differs from a follower that only saw the honest chain: %s",
+				s.k+1, hNow, firstDiff(rd, d))
+		}
 	default:
 		c.Failf("C15/state-changed", "node went from %d/%s to %d/%s; momentums of A handed over unmodified by the peer: heights %v (with all their account blocks: %v)",
 			s.k, short(frontier0), hNow, short(fNow), s.validHeights(), s.allValid(hNow))
@@ -1969,6 +1988,19 @@ func errSuffix(ep *endpoint, o outcome) string {
 // teardown closes every connection, stops the manager, waits until none of its goroutines is
 // running any more and only then removes the follower.
 func (s *session) teardown() {
+	if s.shutdown() && !s.onA {
+		s.sh.w.Drop(s.node)
+	}
+}
+
+// shutdown closes every connection, stops the manager and waits until none of its goroutines is
+// running any more. It returns false if that state could not be reached within the deadlines (the
+// follower is then left alone). Idempotent.
+func (s *session) shutdown() bool {
+	if s.downDone {
+		return s.downOK
+	}
+	s.downDone = true
 	t0 := time.Now()
 	defer func() { s.c.R.Count("ms_teardown", int(time.Since(t0).Milliseconds())) }()
 	s.stopResponder()
@@ -1976,7 +2008,7 @@ func (s *session) teardown() {
 		if !ep.close() {
 			inconclusive(s.c, "protocol function of "+ep.name+" did not return after its connection was closed", dumpAll())
 			s.leak()
-			return // the follower's database stays open: the handler may still use it
+			return false // the follower's database stays open: the handler may still use it
 		}
 	}
 	stopped := make(chan struct{})
@@ -1987,7 +2019,7 @@ func (s *session) teardown() {
 		inconclusive(s.c, "manager Stop did not return", dumpAll())
 		// the follower's database stays open: goroutines of this manager may still use it
 		s.leak()
-		return
+		return false
 	}
 	t1 := time.Now()
 	if d := t1.Sub(t0); d > time.Second && os.Getenv("VERIF_C15_DEBUG") != "" {
@@ -2000,9 +2032,8 @@ func (s *session) teardown() {
 	if !ok {
 		inconclusive(s.c, "manager goroutines still running after Stop", g)
 		s.leak()
-		return
+		return false
 	}
-	if !s.onA {
-		s.sh.w.Drop(s.node)
-	}
+	s.downOK = true
+	return true
 }
